@@ -68,10 +68,15 @@ def job_push(evm, scale=1):
             discharge(obs, "calc_push_size:" + clause, f, timeout_ms=timeout, replay=replay)
         discharge(obs, "calc_push_size:paths-exhaustive", z3.Implies(pre, z3.Or(*[s.pc for s, _ in out2.returns])), timeout_ms=timeout, replay=replay)
         for (s2, size) in out2.returns:
-            for (s_, r) in out.returns:
-                both = z3.And(s2.pc, s_.pc)
-                discharge(obs, "calc_push_size:equals-length-of-PUSH", z3.Implies(both, as_int(size) == len(r)) if is_sym(size) else (z3.Not(both) if size != len(r) else z3.BoolVal(True)),
-                          timeout_ms=timeout, replay=replay)
+            if is_sym(size):
+                discharge(obs, "calc_push_size:result-concrete-per-path", z3.Not(s2.pc), timeout_ms=timeout, replay=replay)
+                continue
+            k = size - 1  # immediates
+            spec = z3.Or(
+                z3.And(x == 0, z3.BoolVal(k == (0 if post_shanghai else 1))),
+                z3.And(x > 0, z3.BoolVal(k >= 1), x >= 256 ** (max(k, 1) - 1), x < 256 ** max(k, 1)),
+            )
+            discharge(obs, "calc_push_size:is-one-plus-minimal-byte-length", z3.Implies(s2.pc, spec), timeout_ms=timeout, replay=replay)
     return number(obs)
 
 
